@@ -242,3 +242,116 @@ func init() {
 		return res, nil
 	})
 }
+
+// facts.lspstores: the tie of the LspCache model's ONE-step "re-check and store" (Model/LspCache.lean, `step true`) to
+// the code: (1) every `cache.Set*` call in the three functions of internal/lsp/lint.go that store parse / lint results,
+// with whether it is lexically inside a function literal passed to `cache.IfPresent`; (2) which methods of
+// internal/lsp/cache.Cache take `deleteMu`; (3) whether sendFileDiagnostics takes publishLock.
+func init() {
+	register("facts.lspstores", func(req map[string]any) (any, error) {
+		out := []string{}
+		fset := token.NewFileSet()
+		f, err := parser.ParseFile(fset, filepath.Join(repoDir(), "internal", "lsp", "lint.go"), nil, 0)
+		if err != nil {
+			return nil, err
+		}
+		isCacheCall := func(c *ast.CallExpr, prefix string) (string, bool) {
+			sel, ok := c.Fun.(*ast.SelectorExpr)
+			if !ok {
+				return "", false
+			}
+			id, ok := sel.X.(*ast.Ident)
+			if !ok || id.Name != "cache" || !strings.HasPrefix(sel.Sel.Name, prefix) {
+				return "", false
+			}
+			return sel.Sel.Name, true
+		}
+		for _, d := range f.Decls {
+			fd, ok := d.(*ast.FuncDecl)
+			if !ok || fd.Body == nil {
+				continue
+			}
+			switch fd.Name.Name {
+			case "updateParse", "updateFileDiagnostics", "updateAllDiagnostics":
+			default:
+				continue
+			}
+			// ranges of function literals passed to cache.IfPresent
+			type span struct{ lo, hi token.Pos }
+			var guarded []span
+			ast.Inspect(fd.Body, func(n ast.Node) bool {
+				if c, ok := n.(*ast.CallExpr); ok {
+					if _, ok := isCacheCall(c, "IfPresent"); ok {
+						for _, a := range c.Args {
+							if fl, ok := a.(*ast.FuncLit); ok {
+								guarded = append(guarded, span{fl.Pos(), fl.End()})
+							}
+						}
+					}
+				}
+				return true
+			})
+			ast.Inspect(fd.Body, func(n ast.Node) bool {
+				if c, ok := n.(*ast.CallExpr); ok {
+					if name, ok := isCacheCall(c, "Set"); ok {
+						in := false
+						for _, g := range guarded {
+							if c.Pos() >= g.lo && c.End() <= g.hi {
+								in = true
+							}
+						}
+						out = append(out, fmt.Sprintf("lint.go:%s %s guarded=%v", fd.Name.Name, name, in))
+					}
+				}
+				return true
+			})
+		}
+		locksField := func(path, recvType, field string) (map[string]bool, error) {
+			f, err := parser.ParseFile(fset, path, nil, 0)
+			if err != nil {
+				return nil, err
+			}
+			res := map[string]bool{}
+			for _, d := range f.Decls {
+				fd, ok := d.(*ast.FuncDecl)
+				if !ok || fd.Recv == nil || fd.Body == nil || len(fd.Recv.List) != 1 {
+					continue
+				}
+				star, ok := fd.Recv.List[0].Type.(*ast.StarExpr)
+				if !ok {
+					continue
+				}
+				if id, ok := star.X.(*ast.Ident); !ok || id.Name != recvType {
+					continue
+				}
+				ast.Inspect(fd.Body, func(n ast.Node) bool {
+					if c, ok := n.(*ast.CallExpr); ok {
+						if sel, ok := c.Fun.(*ast.SelectorExpr); ok && sel.Sel.Name == "Lock" {
+							if inner, ok := sel.X.(*ast.SelectorExpr); ok && inner.Sel.Name == field {
+								res[fd.Name.Name] = true
+							}
+						}
+					}
+					return true
+				})
+			}
+			return res, nil
+		}
+		m, err := locksField(filepath.Join(repoDir(), "internal", "lsp", "cache", "cache.go"), "Cache", "deleteMu")
+		if err != nil {
+			return nil, err
+		}
+		for k := range m {
+			out = append(out, "cache.go:"+k+" locks deleteMu")
+		}
+		m, err = locksField(filepath.Join(repoDir(), "internal", "lsp", "server.go"), "LanguageServer", "publishLock")
+		if err != nil {
+			return nil, err
+		}
+		for k := range m {
+			out = append(out, "server.go:"+k+" locks publishLock")
+		}
+		sort.Strings(out)
+		return out, nil
+	})
+}
